@@ -1,5 +1,6 @@
 //! C07 (and the leaf contracts C06 relies on): Kani harnesses for `transaction::rlp`.
 //! Spliced into `src/transaction/rlp.rs` as a child module, so the private encoders are visible.
+//! Oracles are written without per-byte loops (see common.rs) so that unwind bounds stay small.
 use super::*;
 use crate::__verif_common::*;
 
@@ -7,7 +8,7 @@ use crate::__verif_common::*;
 // Every length in 0..2^64, both offsets: a strict header decoder returns exactly (kind, len) and
 // consumes exactly the emitted bytes.
 crate::verif_harness! {
-    #[kani::unwind(10)]
+    #[kani::unwind(3)]
     fn c07_len() {
         let n: usize = kani::any();
         let is_list: bool = kani::any();
@@ -18,6 +19,7 @@ crate::verif_harness! {
         kani::cover!(n == 56, "56");
         kani::cover!(n >= 1 << 56, "eight length bytes");
         kani::cover!(n > 255 && n < 65536, "two length bytes");
+        kani::cover!(n == 1 << 24, "2^24");
         match dec {
             Some((l, payload, header)) => {
                 assert!(l == is_list, "header kind");
@@ -53,11 +55,7 @@ fn check_bytes<const L: usize>() {
     assert!(out[0] >= 0x80, "string header expected");
     assert!(payload == L, "payload length");
     assert!(out.len() == header + L, "trailing or missing bytes");
-    let mut i = 0;
-    while i < L {
-        assert!(out[header + i] == content[i], "payload byte differs");
-        i += 1;
-    }
+    assert!(bytes_eq(&out[header..], &content), "payload differs");
 }
 
 macro_rules! bytes_harness {
@@ -69,37 +67,36 @@ macro_rules! bytes_harness {
     )*};
 }
 bytes_harness! {
-    c07_bytes_000 = 0, 10; c07_bytes_001 = 1, 10; c07_bytes_002 = 2, 10; c07_bytes_003 = 3, 10;
-    c07_bytes_020 = 20, 22; c07_bytes_032 = 32, 34; c07_bytes_033 = 33, 35;
-    c07_bytes_054 = 54, 56; c07_bytes_055 = 55, 57; c07_bytes_056 = 56, 58; c07_bytes_057 = 57, 59;
-    c07_bytes_064 = 64, 66; c07_bytes_100 = 100, 102; c07_bytes_128 = 128, 130;
+    c07_bytes_000 = 0, 3; c07_bytes_001 = 1, 3; c07_bytes_002 = 2, 3; c07_bytes_003 = 3, 3;
+    c07_bytes_020 = 20, 4; c07_bytes_032 = 32, 4; c07_bytes_033 = 33, 4;
+    c07_bytes_054 = 54, 5; c07_bytes_055 = 55, 5; c07_bytes_056 = 56, 5; c07_bytes_057 = 57, 5;
+    c07_bytes_064 = 64, 6; c07_bytes_100 = 100, 8; c07_bytes_128 = 128, 10;
+    c07_bytes_255 = 255, 18; c07_bytes_256 = 256, 18; c07_bytes_257 = 257, 18;
 }
 
-// Symbolic length up to 40 in one query (all lengths 0..=40 x all contents).
+// Symbolic length up to 60 in one query (all lengths 0..=60 x all contents, crossing 55/56).
 crate::verif_harness! {
-    #[kani::unwind(42)]
+    #[kani::unwind(6)]
     fn c07_bytes_symlen() {
-        let buf: [u8; 40] = kani::any();
+        let buf: [u8; 60] = kani::any();
         let l: usize = kani::any();
-        kani::assume(l <= 40);
+        kani::assume(l <= 60);
         let content = &buf[..l];
         let out = bytes(content);
         kani::cover!(l == 0, "empty");
         kani::cover!(l == 1 && buf[0] < 0x80, "single small byte");
         kani::cover!(l == 1 && buf[0] >= 0x80, "single large byte");
-        kani::cover!(l == 40, "forty");
+        kani::cover!(l == 55, "55");
+        kani::cover!(l == 56, "56");
+        kani::cover!(l == 60, "sixty");
         if l == 1 && content[0] < 0x80 {
             assert!(out.len() == 1 && out[0] == content[0]);
         } else {
             let (is_list, payload, header) = rlp_strict_header(&out).expect("canonical header");
             assert!(!is_list && out[0] >= 0x80);
-            assert!(payload == l && header == 1);
-            assert!(out.len() == 1 + l);
-            let mut i = 0;
-            while i < l {
-                assert!(out[1 + i] == content[i]);
-                i += 1;
-            }
+            assert!(payload == l);
+            assert!(out.len() == header + l);
+            assert!(bytes_eq_sym::<4>(&out[header..], content));
         }
     }
 }
@@ -107,31 +104,29 @@ crate::verif_harness! {
 // --------------------------------------------------------------------------------- rlp::uint
 // All 2^256 values: canonical integer = big-endian without leading zero bytes, zero = empty string.
 crate::verif_harness! {
-    #[kani::unwind(35)]
+    #[kani::unwind(4)]
     fn c07_uint() {
         let be: [u8; 32] = kani::any();
         let value = U256::from_be_bytes(be);
         let out = uint(value);
-        let mut first = 0;
-        while first < 32 && be[first] == 0 {
-            first += 1;
-        }
-        let width = 32 - first; // minimal byte width, 0 for zero
+        // minimal byte width from the two 128-bit halves (no loop)
+        let hi = u128::from_be_bytes([be[0], be[1], be[2], be[3], be[4], be[5], be[6], be[7], be[8], be[9], be[10], be[11], be[12], be[13], be[14], be[15]]);
+        let lo = u128::from_be_bytes([be[16], be[17], be[18], be[19], be[20], be[21], be[22], be[23], be[24], be[25], be[26], be[27], be[28], be[29], be[30], be[31]]);
+        let zero_bytes = if hi != 0 { (hi.leading_zeros() / 8) as usize } else { 16 + (lo.leading_zeros() / 8) as usize };
+        let width = 32 - zero_bytes; // 0 for zero
+        let first = zero_bytes;
         kani::cover!(width == 0, "zero");
         kani::cover!(width == 1 && be[31] < 0x80, "single byte below 0x80");
         kani::cover!(width == 1 && be[31] >= 0x80, "single byte 0x80 or above");
         kani::cover!(width == 32, "full width");
         kani::cover!(width == 17, "crosses the 128-bit limb");
+        kani::cover!(width == 16, "exactly one limb");
         if width == 1 && be[31] < 0x80 {
             assert!(out.len() == 1 && out[0] == be[31]);
         } else {
             assert!(out.len() == 1 + width, "integer not minimal");
             assert!(out[0] as usize == 0x80 + width, "integer header");
-            let mut i = 0;
-            while i < width {
-                assert!(out[1 + i] == be[first + i], "integer digits");
-                i += 1;
-            }
+            assert!(bytes_eq(&out[1..], &be[first..]), "integer digits");
             if width > 0 {
                 assert!(out[1] != 0, "leading zero byte");
             }
@@ -156,21 +151,9 @@ fn check_list<const A: usize, const B: usize, const C: usize>(use_iter: bool) {
     assert!(is_list, "list header expected");
     assert!(payload == A + B + C, "list payload length");
     assert!(out.len() == header + payload, "trailing or missing bytes");
-    let mut i = 0;
-    while i < A {
-        assert!(out[header + i] == a[i]);
-        i += 1;
-    }
-    let mut i = 0;
-    while i < B {
-        assert!(out[header + A + i] == b[i]);
-        i += 1;
-    }
-    let mut i = 0;
-    while i < C {
-        assert!(out[header + A + B + i] == c[i]);
-        i += 1;
-    }
+    assert!(bytes_eq(&out[header..header + A], &a), "first item");
+    assert!(bytes_eq(&out[header + A..header + A + B], &b), "second item");
+    assert!(bytes_eq(&out[header + A + B..], &c), "third item");
 }
 
 macro_rules! list_harness {
@@ -182,38 +165,22 @@ macro_rules! list_harness {
     )*};
 }
 list_harness! {
-    c07_list_0_0_0 = (0, 0, 0), false, 10;
-    c07_list_1_0_2 = (1, 0, 2), false, 10;
-    c07_list_20_20_15 = (20, 20, 15), false, 24;
-    c07_list_21_20_15 = (21, 20, 15), false, 24;
-    c07_list_33_33_33 = (33, 33, 33), true, 36;
-    c07_iter_1_33_21 = (1, 33, 21), true, 36;
-    c07_iter_0_0_0 = (0, 0, 0), true, 10;
+    c07_list_0_0_0 = (0, 0, 0), false, 5;
+    c07_list_1_0_2 = (1, 0, 2), false, 5;
+    c07_list_20_20_15 = (20, 20, 15), false, 5;
+    c07_list_21_20_15 = (21, 20, 15), false, 5;
+    c07_list_33_33_33 = (33, 33, 33), true, 5;
+    c07_iter_1_33_21 = (1, 33, 21), true, 5;
+    c07_iter_0_0_0 = (0, 0, 0), true, 5;
+    c07_list_130_130_0 = (130, 130, 0), false, 11;
+    c07_iter_100_100_56 = (100, 100, 56), true, 9;
 }
 
 crate::verif_harness! {
-    #[kani::unwind(10)]
+    #[kani::unwind(3)]
     fn c07_list_empty() {
         let out = list(&[]);
         kani::cover!(true, "reached");
         assert!(out.len() == 1 && out[0] == 0xc0);
-    }
-}
-
-// A long list (payload 256..: two length bytes) built from two 130-byte items.
-crate::verif_harness! {
-    #[kani::unwind(132)]
-    fn c07_list_long() {
-        let a: [u8; 130] = kani::any();
-        let b: [u8; 130] = kani::any();
-        let out = list(&[&a, &b]);
-        kani::cover!(true, "reached");
-        assert!(out.len() == 3 + 260);
-        assert!(out[0] == 0xf9 && out[1] == 0x01 && out[2] == 0x04);
-        let mut i = 0;
-        while i < 130 {
-            assert!(out[3 + i] == a[i] && out[3 + 130 + i] == b[i]);
-            i += 1;
-        }
     }
 }
